@@ -32,7 +32,13 @@ def _push_ops(o):
     return o
 
 
+def _mrs_apsr_sem(cpu, o, row):
+    # MRS with R == 0 returns only the APSR bits, also in privileged modes
+    cpu.setR(o['d'], cpu.cpsr() & 0xF80F0000)
+
+
 DEVIATIONS = [
+    Deviation('mrs_cpsr_returns_apsr_only', ['mrs_application_a1', 'mrs_application_t1'], sem={'mrs': _mrs_apsr_sem}),
     Deviation('cbz_offset_scaled_by_4', ['cbz_t1'], ops=_cbz_ops),
     Deviation('bfi_copies_rn_msbit_lsbit', ['bfi_a1', 'bfi_t1'], sem={'bfi': _bfi_sem}),
     Deviation('push_t2_unaligned_allowed', ['push_t2'], ops=_push_ops),
